@@ -38,6 +38,7 @@ ASSUMPTIONS = [
 TAGS = ["#"] * 10 + ["BRAM", "DSP", "reg1", "_x", "a_9", "Z", "BRAM", "DSP",
         # prefixes of each other, YAML-special words, words float() knows, the ground tag doubled
         "reg", "reg1_0", "null", "true", "yes", "on", "n", "inf", "nan", "x", "e5", "__", "_1", "True"]
+LEGACY_TAGS = ["#", "#", "#", "BRAM", "DSP", "reg1", "_x", "a_9", "Z"]
 BAD_TAGS = ["_", "9a", "a-b", "", "a b", "##", "reg.1", "BRAM ", " BRAM", "#x", "_#", "1e5", "a:b", "x,y"]
 
 
@@ -169,6 +170,10 @@ def lattice_stats(nx, ny, rects):
 
 
 def gen_case(rng, stream=None):
+    """A die case.  With an explicit `stream` (the callers in other property modules: C20 builds its dies from
+    these) the plain generator is used: dict / flat / bare-string forms, 0-8 regions, the short tag list - none of
+    the input forms, sizes, names, orders and histories that C01's own run adds."""
+    legacy = stream is not None
     if stream is None:
         stream = rng.choices(["exact", "exact-eps", "decimal", "malformed", "badstring", "sd"], [42, 13, 27, 11, 3, 4])[0]
     if stream == "badstring":
@@ -178,7 +183,7 @@ def gen_case(rng, stream=None):
     nx, ny = rng.choice([1, 2, 3, 3, 4, 4, 5, 5, 6]), rng.choice([1, 2, 3, 3, 4, 4, 5, 5, 6])
     pattern = rng.choices(["random", "ring", "tjunction", "full"], [12, 5, 4, 1])[0]
     k = rng.randrange(0, 9)
-    if stream in ("exact", "decimal") and rng.random() < 0.025:
+    if not legacy and stream in ("exact", "decimal") and rng.random() < 0.025:
         nx, ny, pattern = 7, 7, "many"                      # many one-cell regions: 9, 10, 15, 16, 17, 32, 33
         k = rng.choice([9, 10, 15, 16, 17, 32, 33])
     if stream == "decimal":
@@ -194,13 +199,13 @@ def gen_case(rng, stream=None):
     stats = sorted(lattice_stats(nx, ny, rects))
     W, H = xs[-1], ys[-1]
     regions, fixed = [], []
-    allfixed = rng.random() < 0.15          # every rectangle comes from the netlist, none from the description
+    allfixed = not legacy and rng.random() < 0.15          # every rectangle comes from the netlist, none from the description
     for (i0, j0, i1, j1) in rects:
         box = [xs[i0], ys[j0], xs[i1], ys[j1]]
         if allfixed or rng.random() < 0.2:
             fixed.append(box)
         else:
-            regions.append(box + [rng.choice(TAGS)])
+            regions.append(box + [rng.choice(LEGACY_TAGS if legacy else TAGS)])
     case = {"stream": stream, "W": W, "H": H, "form": "dict", "eps": None, "stats": stats, "defect": None}
     if stream == "exact-eps":
         eps = F(1, 1024)
@@ -225,7 +230,7 @@ def gen_case(rng, stream=None):
                 b1[s1] = line + sg * F(1, 512)
                 b2[s2] = line + sg * F(1, 1024)
                 case["stats"] = case["stats"] + ["centre-line"]
-    if rng.random() < 0.5:
+    if not legacy and rng.random() < 0.5:
         rng.shuffle(regions)                                 # the order in which regions are listed is arbitrary
         rng.shuffle(fixed)
     tree_regions = [[(b[0] + b[2]) / 2, (b[1] + b[3]) / 2, b[2] - b[0], b[3] - b[1], b[4]] for b in regions]
@@ -236,13 +241,18 @@ def gen_case(rng, stream=None):
         if len(tree_regions) == 1 and rng.random() < 0.4:
             tree["regions"] = tree_regions[0]               # the flat single-rectangle form
             case["form"] = "single"
-    if stream == "exact" and rng.random() < 0.15:
+    if not legacy and stream == "exact" and rng.random() < 0.15:
         # modules that are NOT fixed but have rectangles (hard / soft): they must not appear in the die
         i0, j0 = rng.randrange(nx), rng.randrange(ny)
         b = [xs[i0], ys[j0], xs[min(nx, i0 + rng.randrange(1, 3))], ys[min(ny, j0 + rng.randrange(1, 3))]]
         case["hard"] = [[(b[0] + b[2]) / 2, (b[1] + b[3]) / 2, b[2] - b[0], b[3] - b[1], rng.choice(["hard", "soft"])]]
     if stream == "malformed":
         inject_defect(rng, case, tree, xs, ys)
+    if legacy:
+        if "regions" not in tree and not case["fixed"] and rng.random() < 0.3 and stream in ("exact", "decimal"):
+            case["form"] = "string"                          # "<W>x<H>", plain repr spelling
+        case["tree"] = tree
+        return case
     if rng.random() < 0.2:
         keys = list(tree)
         rng.shuffle(keys)                                    # regions before width, height first, ...
